@@ -20,6 +20,22 @@ oracle: no Lean.  Ground truth from the generator (line of the offending Python 
         parent's <%include>), identical fields across paths; RichTraceback(error).lineno/source,
         text_error_template() and html_error_template() output, format_exceptions=True output; a faulty template B
         pulled in by a healthy A (<%include>, <%inherit>, <%namespace file>) through a lookup is displayed at B's line.
+
+always-run witnesses (`witness_cases`, both tiers, before the generated streams; every witness goes through ALL seven
+construction paths, the display oracle and a pulled-in scenario - nothing about them is sampled).  Every kind of oracle
+assertion has at least one witness that exercises it, so that trimming the generated plan never removes a detector:
+  ground-truth line/column, exception class ........ every witness (Python faults in expr / filter / block / control line /
+                                                      attribute, 12 structural and node-level classes, module-level faults)
+  filename, source per path, equality across paths . every witness x {string, file, lookup, moddir, reload, reload-moddir,
+                                                      reload-include}
+  RichTraceback.lineno/source, text_error_template,
+  html_error_template (highlighted line + heading) .. every witness that raises a Mako exception, on the string path
+                                                      (direct) and on the lookup path (pulled in); in particular the
+                                                      LINE_LIKE witnesses: FF, VT, FS, GS, RS, NEL, U+2028, U+2029 and a
+                                                      lone CR in the text above the fault, two fault classes each - the
+                                                      displayed line must be the line the exception counts
+  format_exceptions page, pulled-in fields ......... every such witness, cycling <%include> / <%inherit> / <%namespace file>
+  recorded findings (F7, F8, F8b, F13) .............. their own witnesses (reported as KNOWN-FINDING)
 """
 from __future__ import annotations
 
@@ -234,6 +250,9 @@ class Impl:
         except Exception as e:
             return self.describe(e), fn
 
+
+# what str.splitlines() treats as a line boundary although mako's lexer (and CompileException.lineno) counts "\n" only
+LINE_LIKE = ["\x0c", "\x0b", "\x1c", "\x1d", "\x1e", "\x85", "\u2028", "\u2029", "\r"]
 
 PATHS = ["string", "file", "lookup", "moddir", "reload", "reload-moddir", "reload-include"]
 
@@ -906,6 +925,15 @@ def witness_cases():
     for sub, s, off in [("expr-trailing-comment", "t\n${x # c}", 2), ("block-break-outside-loop", "t\n  <% break %>", 4),
                         ("module-block-return", "<%! return %>", 0)]:
         W.append({"cls": "module-level", "sub": sub, "src": s, "construct": G._truth(s, off), "line": G.line_of(s, off)})
+    # characters str.splitlines() breaks on but mako's lexer does not count as a line end, in the text ABOVE a fault:
+    # whatever splits the source into lines for display must split it the way the line number was counted
+    for ch in LINE_LIKE:
+        s = "head a" + ch + "b" + ch + ch + "tail\nsecond " + ch + "line\n  ${ x + = y }\nlast\n"
+        o = s.index("${")
+        py(s, "expr", o, o + 2, s.index("}") - o - 2, s.index("= y"))
+        s = "head a" + ch + "b tail\n" + ch + "second\n\n   <%include file='/x.html' bogus='1'/>\nlast " + ch + "\n"
+        W.append({"cls": "illegal-attribute", "src": s, "construct": G._truth(s, s.index("<%include")),
+                  "line": G.line_of(s, s.index("<%include")), "tag": "include"})
     return W
 
 
@@ -922,7 +950,7 @@ def run(ctx):
             ctx.broke("correspondence:raise-sites", repr(e))
         run_faults(ctx, impl, ws, "witnesses-model", "witnesses-oracle", 1, 1, 1)
         if ctx.quick:
-            plan = [(80, 30, 1)]
+            plan = [(70, 30, 1)]
             path_every, display_every, pulled_every = 11, 41, 53
         else:
             plan = [(40, 0, 1), (230, 40, 2)]
